@@ -295,6 +295,12 @@ def _drive(rep: Report, tier: str, seed: int, P: Any, d: Path, futs: dict[str, A
     cshare = P.Container(wshare, "zst", "all", d)
     for o in (P.op("fwd", 8), P.op("rev", 8), P.op("fwd", 5)):
         batch.add(wshare, P.run_reader_session(cshare, [o], content=True), meta("reader", cshare, "shared-tag-lists"))
+    # a second compressed log of the same process is open for part of the run (and gets records of its own)
+    for k, nrec in enumerate((40, 400)):
+        wtwo = P.write_log(dict(P.spec_random(seed, 1004 + k, nrec, "plain"), other_log=True), d, f"two{k}")
+        ctwo = P.Container(wtwo, "zst", "all", d)
+        for o in (P.op("fwd", 8), P.op("rev", 8), P.op("len"), P.op("tail", 8, 3)):
+            batch.add(wtwo, P.run_reader_session(ctwo, [o], content=True), meta("reader", ctwo, "two-logs-open"))
     # a long run whose writer thread is held up while the run keeps logging (slow / remote artifacts directory)
     wslow = P.write_log(dict(P.spec_random(seed, 1002, 15000 if quick else 80000, "plain"), slow_writer=True), d, "slow")
     cslow = P.Container(wslow, "zst", "all", d)
